@@ -448,3 +448,18 @@ func branchOf(i ssa.Instruction) ssa.Instruction {
 	}
 	return i
 }
+
+func init() {
+	prev := props["C05"]
+	props["C05"] = func(r *Report) {
+		prev(r)
+		if !r.W.full {
+			return
+		}
+		r.Guard("C05.R1", r.RuleDoc["C05.R1"], func() {
+			for _, n := range []string{"Session.MarkSecure", "Session.MarkInsecure", "Session.setConn"} {
+				r.dynamicCallerRule(r.W.Fn("", n), "the session's security state changed outside the exchange functions")
+			}
+		})
+	}
+}
